@@ -66,9 +66,10 @@ def one(d, skip_baseline=False):
                 res["replay_excerpt"] = open(rp).read()[:1500]
         if res["confirmed"]:
             dst = os.path.join(V, "seeded", name)
-            if os.path.exists(dst):
-                shutil.rmtree(dst)
-            shutil.copytree(d, dst, ignore=shutil.ignore_patterns("go.sum", "*.test", "demo_bin", "bin"))
+            if os.path.abspath(dst) != os.path.abspath(d):
+                if os.path.exists(dst):
+                    shutil.rmtree(dst)
+                shutil.copytree(d, dst, ignore=shutil.ignore_patterns("go.sum", "*.test", "demo_bin", "bin"))
             meta["verif_run"] = {k: res[k] for k in res if k not in ("replay_excerpt",)}
             meta["verif_run"]["commands"] = ["git worktree add --detach <wt> HEAD; git apply patch.diff; go build ./...",
                                              "tools/baseline.py <wt>", "demo/run.sh /repo ; demo/run.sh <wt>", "VERIF_REPO=<wt> ./check %s --tier quick" % pid]
